@@ -23,11 +23,18 @@
    scenario program the harness checks against real traces: stage+transfer / upload (directory object
    from memory), store->store transfer (directory object copied local->local), ONE transfer() over
    several directories sharing files (files go up with the FIRST directory listing them), index.save
-   without and with effective verification (per-call flag or the store's default).  Not covered by a
-   generator theorem: transfers with per-call verify=True (vtransfer_prog, mt_loop with v = true) and a
-   corrupt SOURCE object - both through [valid_trace] / [crash_inv_b] of the recorded traces only. *)
+   without and with effective verification (per-call flag or the store's default), transfers with
+   per-call verification (one directory, or several sharing files) and hardlink transfers (a link =
+   the atomic composition [CreateTmp; WriteTmp; Rename] of a virtual temp name).
+   The ONE scenario without a generator theorem is the corrupt SOURCE object (verify=True transfer
+   of a partial object): there the copy renames a mismatching content into place, which is outside the
+   machine's discipline ([step_ok] of Rename demands a well-named content), so [valid_trace] is false
+   by design and C15_prefix does not apply; what is missing is a relaxed discipline
+   "Rename of any content onto an ABSENT name" (safe: prot = false, the row is dropped, no present
+   directory can list an absent name) together with a weakened [ok_on]; until then that scenario is
+   checked by [crash_inv_b] (sound: C15_crash_inv_b_sound) at every recorded prefix and by the oracle. *)
 From Coq Require Import NArith List Bool.
-From DvcData Require Import Base.Val Model.AddSteps Proofs.AddStepsProofs Proofs.AddStepsProgs Proofs.AddStepsRecover Proofs.AddStepsVerify Proofs.AddStepsRecoverVerify Proofs.AddStepsMulti Proofs.AddStepsMultiRecover Proofs.AddStepsExamples Gen.DbAdd Proofs.AddStepsTie.
+From DvcData Require Import Base.Val Model.AddSteps Proofs.AddStepsProofs Proofs.AddStepsProgs Proofs.AddStepsRecover Proofs.AddStepsVerify Proofs.AddStepsRecoverVerify Proofs.AddStepsMulti Proofs.AddStepsMultiRecover Proofs.AddStepsVMulti Proofs.AddStepsVTransfer Proofs.AddStepsExamples Gen.DbAdd Proofs.AddStepsTie.
 Import ListNotations.
 Open Scope N_scope.
 
@@ -280,3 +287,106 @@ Theorem C15_source_add_facts :
   prepare_hash_name = Dest /\ prepare_state = Dest /\ prepare_lists = Src.
 Proof. exact source_add_facts. Qed.
 Print Assumptions C15_source_add_facts.
+
+(* ---- transfers with per-call verification: transfer(..., verify=True) - pre-add check, copies,
+   per-oid check + protect, state; the directory object from memory or copied (mem) ---- *)
+Theorem C15_prefix_vtransfer :
+  forall (bytes : Type) (H : bytes -> oid) (kids : bytes -> list oid) (empty : bytes)
+         (part : bytes -> bytes),
+    kids empty = [] ->
+    forall mem t qs files d w n,
+      inv bytes H kids w -> w_pend w = None ->
+      files_ok bytes H files -> dir_ok bytes H kids files d -> requested bytes files d qs ->
+      crash_inv bytes H kids
+        (crash bytes (run bytes empty (firstn n (vtransfer_prog bytes H empty part mem t qs files d w)) w)).
+Proof. exact vtransfer_prefix_crash_inv. Qed.
+Print Assumptions C15_prefix_vtransfer.
+
+Theorem C15_recover_vtransfer :
+  forall (bytes : Type) (H : bytes -> oid) (kids : bytes -> list oid) (empty : bytes)
+         (part : bytes -> bytes),
+    kids empty = [] ->
+    (forall b b', base (H b) = base (H b') -> b = b') ->
+    forall mem t t' qs qs' files d w0 n,
+      inv bytes H kids w0 -> w_pend w0 = None ->
+      files_ok bytes H files -> dir_ok bytes H kids files d ->
+      requested bytes files d qs -> requested bytes files d qs' ->
+      let p0 := vtransfer_prog bytes H empty part mem t qs files d w0 in
+      let wc := crash bytes (run bytes empty (firstn n p0) w0) in
+      let p1 := vtransfer_prog bytes H empty part mem t' qs' files d wc in
+      valid_trace bytes H kids empty p1 wc = true /\
+      (forall m, crash_inv bytes H kids (crash bytes (run bytes empty (firstn m p1) wc))) /\
+      store_eq bytes (run bytes empty p1 wc) (run bytes empty p0 w0) /\
+      (forall o, In o qs -> good bytes H (run bytes empty p1 wc) o).
+Proof. exact vtransfer_recover. Qed.
+Print Assumptions C15_recover_vtransfer.
+
+(* one VERIFIED transfer() over several directories sharing files (mt_loop with v = true) *)
+Theorem C15_prefix_mtransfer_verify :
+  forall (bytes : Type) (H : bytes -> oid) (kids : bytes -> list oid) (empty : bytes)
+         (part : bytes -> bytes),
+    kids empty = [] ->
+    forall mem t qs ds forder w n,
+      inv bytes H kids w -> w_pend w = None ->
+      files_ok bytes H forder -> (forall d, In d ds -> dir_ok bytes H kids forder d) ->
+      NoDup (map fst ds) -> mrequested bytes forder ds qs ->
+      crash_inv bytes H kids
+        (crash bytes (run bytes empty (firstn n (mtransfer_prog bytes H kids empty part true mem t qs ds forder w)) w)).
+Proof. exact mtransfer_v_prefix_crash_inv. Qed.
+Print Assumptions C15_prefix_mtransfer_verify.
+
+Theorem C15_recover_mtransfer_verify :
+  forall (bytes : Type) (H : bytes -> oid) (kids : bytes -> list oid) (empty : bytes)
+         (part : bytes -> bytes),
+    kids empty = [] ->
+    (forall b b', base (H b) = base (H b') -> b = b') ->
+    forall mem t t' qs qs' ds ds' forder forder' w0 n,
+      inv bytes H kids w0 -> w_pend w0 = None ->
+      files_ok bytes H forder -> (forall d, In d ds -> dir_ok bytes H kids forder d) ->
+      NoDup (map fst ds) -> mrequested bytes forder ds qs ->
+      files_ok bytes H forder' -> (forall d, In d ds' -> dir_ok bytes H kids forder' d) ->
+      NoDup (map fst ds') -> mrequested bytes forder' ds' qs' ->
+      (forall o, In o qs <-> In o qs') ->
+      let p0 := mtransfer_prog bytes H kids empty part true mem t qs ds forder w0 in
+      let wc := crash bytes (run bytes empty (firstn n p0) w0) in
+      let p1 := mtransfer_prog bytes H kids empty part true mem t' qs' ds' forder' wc in
+      valid_trace bytes H kids empty p1 wc = true /\
+      (forall m, crash_inv bytes H kids (crash bytes (run bytes empty (firstn m p1) wc))) /\
+      store_eq bytes (run bytes empty p1 wc) (run bytes empty p0 w0) /\
+      (forall o, In o qs -> good bytes H (run bytes empty p1 wc) o).
+Proof. exact mtransfer_v_recover. Qed.
+Print Assumptions C15_recover_mtransfer_verify.
+
+(* transfer(..., hardlink=True): the workspace files are linked into the store (reflink attempt for the
+   first one only); the existence query comes first, so an object linked before a crash is never handed
+   to add(check_exists=False) again *)
+Theorem C15_prefix_hardlink_transfer :
+  forall (bytes : Type) (H : bytes -> oid) (kids : bytes -> list oid) (empty : bytes)
+         (part : bytes -> bytes),
+    kids empty = [] ->
+    forall t qs files d w n,
+      inv bytes H kids w -> w_pend w = None ->
+      files_ok bytes H files -> dir_ok bytes H kids files d -> requested bytes files d qs ->
+      crash_inv bytes H kids
+        (crash bytes (run bytes empty (firstn n (ltransfer_prog bytes H empty part t qs files d w)) w)).
+Proof. exact ltransfer_prefix_crash_inv. Qed.
+Print Assumptions C15_prefix_hardlink_transfer.
+
+Theorem C15_recover_hardlink_transfer :
+  forall (bytes : Type) (H : bytes -> oid) (kids : bytes -> list oid) (empty : bytes)
+         (part : bytes -> bytes),
+    kids empty = [] ->
+    (forall b b', base (H b) = base (H b') -> b = b') ->
+    forall t t' qs qs' files d w0 n,
+      inv bytes H kids w0 -> w_pend w0 = None ->
+      files_ok bytes H files -> dir_ok bytes H kids files d ->
+      requested bytes files d qs -> requested bytes files d qs' ->
+      let p0 := ltransfer_prog bytes H empty part t qs files d w0 in
+      let wc := crash bytes (run bytes empty (firstn n p0) w0) in
+      let p1 := ltransfer_prog bytes H empty part t' qs' files d wc in
+      valid_trace bytes H kids empty p1 wc = true /\
+      (forall m, crash_inv bytes H kids (crash bytes (run bytes empty (firstn m p1) wc))) /\
+      store_eq bytes (run bytes empty p1 wc) (run bytes empty p0 w0) /\
+      (forall o, In o qs -> good bytes H (run bytes empty p1 wc) o).
+Proof. exact ltransfer_recover. Qed.
+Print Assumptions C15_recover_hardlink_transfer.
